@@ -614,7 +614,7 @@ class MathFacade:
         if isinstance(x, SymReal):
             v = concrete_value(x)
             if v is None:
-                raise Unsupported('exp of a symbolic real (pass scores as LogVal)')
+                return exp_uf(x)
             return math.exp(v)
         return math.exp(x)
 
@@ -659,6 +659,27 @@ class MathFacade:
                 raise Unsupported('ceil of symbolic')
             return math.ceil(v)
         return math.ceil(x)
+
+
+_EXP = z3.Function('exp', z3.RealSort(), z3.RealSort())
+
+
+def exp_uf(x):
+    """exp of a symbolic real as an uninterpreted function with the facts: exp > 0, strictly monotone (instantiated
+    pairwise over the arguments seen on this path), exp(0) = 1.  Sound (every fact is true of exp), incomplete."""
+    r = cur()
+    x = as_real(x)
+    seen = r.__dict__.setdefault('_exp_args', [])
+    e = _EXP(x.e)
+    r.solver.add(e > 0)
+    r.solver.add(z3.Implies(x.e == 0, e == 1))
+    for y in seen:
+        r.solver.add(z3.Implies(x.e < y, e < _EXP(y)))
+        r.solver.add(z3.Implies(x.e > y, e > _EXP(y)))
+        r.solver.add(z3.Implies(x.e == y, e == _EXP(y)))
+    seen.append(x.e)
+    note('external-assumed', what='math.exp', contract='uninterpreted: positive, strictly monotone, exp(0)=1')
+    return SymReal(e)
 
 
 MATH = MathFacade()
